@@ -57,6 +57,43 @@ def repeat_harness(L, K, what, overlap, mode):
             elif what == "region":
                 reg = core.AudioRegion(data, sr, sw, ch)
                 runs = [list(reg.split(analysis_window=SymRat(B, sr), validator=mkval()[0], **skw)) for _ in range(3)]
+            elif what == "two-generators":
+                # default (energy) detection, where split() builds validator and tokenizer itself: two lazy runs with equal parameters are
+                # alive at once and consumed alternately (or the first is resumed after the second is finished); each must equal a run alone
+                table = {}
+
+                class RecValidator:
+                    """stands for AudioEnergyValidator: stateless like the real one - the decision depends on the window only (window k of the
+                    input, identified by the term that denotes its bytes, gets the bit v_k whichever instance is asked, however often)"""
+
+                    def __init__(self, *a, **k):
+                        pass
+
+                    def is_valid(self, d):
+                        return SymBool(z3.Bool("v%d" % table.setdefault(repr(d), len(table))))
+                core.AudioEnergyValidator = RecValidator
+                core.DataValidator.register(RecValidator)
+                kw = dict(sr=sr, sw=sw, ch=ch, analysis_window=SymRat(B, sr))
+                alone = list(core.split(data, **dict(kw, **skw)))
+                g1, g2 = core.split(data, **dict(kw, **skw)), core.split(data, **dict(kw, **skw))
+                r1, r2 = [], []
+                how = e.choose(2)
+                consumed = consumed_box[0] = ("alternately", "first resumed after the second has finished")[how]
+                if how == 0:
+                    live = [(g1, r1), (g2, r2)]
+                    while live:
+                        for g, r in list(live):
+                            try:
+                                r.append(next(g))
+                            except StopIteration:
+                                live.remove((g, r))
+                else:
+                    for g, r, cnt in ((g1, r1, 1), (g2, r2, None), (g1, r1, None)):
+                        for x in g:
+                            r.append(x)
+                            if cnt is not None:
+                                break
+                runs = [alone, r1, r2]
             elif what == "reader-reopen":
                 # a plain (non-recording) reader over a buffer: read to the end, close, open again - the buffer restarts, so must the reader
                 rd = util.AudioReader(data, block_dur=SymRat(B, sr), sr=sr, sw=sw, ch=ch)
@@ -207,6 +244,30 @@ def replay_fn(c):
         elif c["what"] == "region":
             reg = ak.AudioRegion(data, sr, sw, ch)
             runs = [list(reg.split(analysis_window=B / sr, validator=val(), **skw)) for _ in range(3)]
+        elif c["what"] == "two-generators":
+            # the decisions are realised as energies: a loud window (86 dB) where the decision is 'active', zeros elsewhere; default threshold
+            import struct
+            nw = -(-n // B)
+            data = b"".join(struct.pack("<h", 20000 if (k // B < len(c["valid"]) and c["valid"][k // B]) else 0) for k in range(n))
+            kw = dict(sr=sr, sw=sw, ch=ch, analysis_window=B / sr)
+            alone = list(ak.split(data, **dict(kw, **skw)))
+            g1, g2 = ak.split(data, **dict(kw, **skw)), ak.split(data, **dict(kw, **skw))
+            r1, r2 = [], []
+            if c["first_use"] == "alternately":
+                live = [(g1, r1), (g2, r2)]
+                while live:
+                    for g, r in list(live):
+                        try:
+                            r.append(next(g))
+                        except StopIteration:
+                            live.remove((g, r))
+            else:
+                for g, r, cnt in ((g1, r1, 1), (g2, r2, None), (g1, r1, None)):
+                    for x in g:
+                        r.append(x)
+                        if cnt is not None:
+                            break
+            runs = [alone, r1, r2]
         elif c["what"] == "reader-reopen":
             rd = ak.AudioReader(data, block_dur=B / sr, sr=sr, sw=sw, ch=ch)
             runs = []
@@ -272,9 +333,11 @@ def run(rep):
     rep.bounds["repeated split"] = ("same bytes / same AudioRegion split 3 times; recording reader (with and without overlap) first used "
                                     "completely, abandoned after 0-2 regions or after 0-%d bare reads, then rewound and split 3 times (with a pass abandoned after its first region in between) and compared "
                                     "with a fresh reader over its data; <= %d windows, n, window, hop, counts unbounded" % (K, K))
+    rep.bounds["two live generators"] = ("default energy detection (validator class stubbed by per-instance decision bits): two split() generators with equal parameters over the same bytes, "
+                                         "consumed alternately or the first resumed after the second has finished, each compared with a run alone; <= %d windows" % K)
     rep.bounds["buffer source"] = "arbitrary position, read(j), close, open, read(k): unbounded n, p0, j, k"
     modes = (0, 6) if rep.tier == "quick" else tok.MODES
-    for what, overlap in (("bytes", False), ("region", False), ("reader-reopen", False), ("recorder", False), ("recorder", True)):
+    for what, overlap in (("bytes", False), ("region", False), ("two-generators", False), ("reader-reopen", False), ("recorder", False), ("recorder", True)):
         for mode in (modes if what == "recorder" else modes[:1]):
             hn = "repeat[%s%s,K=%d,mode=%d]" % (what, ",overlap" if overlap else "", K, mode)
             ex = explore(repeat_harness(L, K, what, overlap, mode))
